@@ -108,6 +108,7 @@ def run_fuse(src_path, ref_path, out_path, model='gain-blk-offset', kernel_shape
                 res.param_tags = ds.tags()
                 res.param_descriptions = ds.descriptions
     res.corr_path, res.param_path = out_path, param_path
+    res.max_block_mem, res.model_config = max_block_mem, dict(model_config or {})
     return res
 
 
